@@ -382,7 +382,7 @@ func generateOTPURL(kind string, param URLParam, extraParams map[string]string) 
 		return nil, ErrSecretRequired
 	}
 
-	label := url.PathEscape(fmt.Sprintf("%s:%s", param.Issuer, param.AccountName))
+	label := fmt.Sprintf("%s:%s", param.Issuer, param.AccountName)
 
 	query := url.Values{}
 	query.Set("secret", param.Secret)
@@ -399,6 +399,7 @@ func generateOTPURL(kind string, param URLParam, extraParams map[string]string) 
 		Scheme:   "otpauth",
 		Host:     kind, // "totp" or "hotp"
 		Path:     "/" + label,
+		RawPath:  "/" + url.PathEscape(label),
 		RawQuery: query.Encode(),
 	}, nil
 }
